@@ -616,8 +616,16 @@ func randShape(r *rand.Rand, kind string, smallBags bool) *Shape {
 		}
 	case "text":
 		n := count012(r, 130)
+		big := -1
+		if n > 0 && r.Intn(6) == 0 {
+			big = r.Intn(n)
+		}
 		for i := 0; i < n; i++ {
-			s.Recs = append(s.Recs, TextRec{Div: byte(r.Intn(256)), Hash: rint32(r), Text: rtext(r, 70000)})
+			mx := 300
+			if i == big {
+				mx = 70000
+			}
+			s.Recs = append(s.Recs, TextRec{Div: byte(r.Intn(256)), Hash: rint32(r), Text: rtext(r, mx)})
 		}
 	case "param":
 		s.Id, s.Request, s.Response = rint32(r), valgen.RandInt64(r), valgen.RandInt64(r)
